@@ -3,24 +3,22 @@
    point_along_path and with_segments_bisected are the repaired versions (fix commits b4dc017, b67c153). *)
 From Coq Require Import ZArith Reals List Bool Lra.
 From PW Require Import Num NumR Vec NpList Result.
-From PW.model Require Import M_polyline_base M_segment M_polyline_nearest M_polyline_length.
+From PW.model Require Import M_polyline_base M_segment M_polyline_nearest M_polyline_length M_polyline_length_spec.
 From PW.proofs Require Import P_segment P_polyline_length P_polyline_length2.
 Import ListNotations.
 Local Open Scope R_scope.
 
-(* segment_lengths are the Euclidean lengths, total_length their sum (>= 0), path_centroid the length-weighted
-   mean of the segment midpoints (c * L = sum len_i * mid_i), refused exactly when the total length is zero *)
+(* total_length >= 0; path_centroid is the length-weighted mean of the segment midpoints (c * L = sum len_i * mid_i),
+   refused exactly when the total length is zero. (That segment_lengths are the Euclidean lengths and total_length
+   their sum is the shape of the model: see the definitional block at the end; content by the tie lengths_centroid_n4.) *)
 Theorem C08_lengths_sum_centroid : forall pl,
-  (forall k, nth_error (segment_lengths ROps pl) k =
-             option_map (fun s => vnorm ROps (vsub ROps (snd s) (fst s))) (nth_error (pl_segments pl) k)) /\
-  total_length ROps pl = nsum ROps (segment_lengths ROps pl) /\
   0 <= total_length ROps pl /\
   (forall c, path_centroid ROps pl = Ok c ->
      total_length ROps pl <> 0 /\
      vscale ROps (total_length ROps pl) c =
        vsum ROps (map (fun s => vscale ROps (seg_len ROps s) (vscale ROps (1 / 2) (vadd ROps (fst s) (snd s)))) (pl_segments pl))) /\
   (total_length ROps pl = 0 -> path_centroid ROps pl = Raise ZeroDivisionError).
-Proof. exact lengths_sum_centroid. Qed.
+Proof. exact centroid_spec. Qed.
 
 (* ---- point_along_path ---- *)
 (* the segments of a polyline form a chain that starts at the first vertex (what makes `walk` a walk along the path) *)
@@ -35,10 +33,11 @@ Proof. exact point_along_path_spec. Qed.
 Theorem C08_point_along_path_f0 : forall pl h t, pv pl = h :: t -> 0 < total_length ROps pl ->
   point_along_one ROps pl 0 = Some h.
 Proof. exact point_along_f0. Qed.
-(* f = 1: the end of the last segment — the first vertex again if closed, the last vertex if open — also when the
-   last segment(s) have zero length (no NaN) *)
-Theorem C08_point_along_path_f1 : forall pl, point_along_one ROps pl 1 = path_end pl.
-Proof. exact point_along_f1. Qed.
+(* f = 1, through the public entry point, whenever the polyline has a segment: the end of the last segment — the first
+   vertex again if closed, the last vertex if open — also when the last segment(s) have zero length (no NaN) *)
+Theorem C08_point_along_path_f1 : forall pl h t, pv pl = h :: t -> pl_segments pl <> [] ->
+  point_along_path ROps pl [1] = Ok [if pclosed pl then h else last t h].
+Proof. exact point_along_path_f1. Qed.
 Theorem C08_path_end_is_end_of_last_segment : forall pl h t, pv pl = h :: t ->
   path_end pl = Some (segs_end h (pl_segments pl)) /\
   path_end pl = Some (if pclosed pl then h else last t h).
@@ -57,11 +56,15 @@ Theorem C08_point_along_path_continuous : forall pl h t f1 f2 p1 p2, pv pl = h :
   point_along_one ROps pl f1 = Some p1 -> point_along_one ROps pl f2 = Some p2 ->
   vnorm ROps (vsub ROps p1 p2) <= total_length ROps pl * Rabs (f1 - f2).
 Proof. exact point_along_lipschitz. Qed.
-(* stacked fractions are answered row by row; a fraction outside [0,1] is refused *)
-Theorem C08_point_along_path_stacked : forall pl fs, pv pl <> [] -> (forall x, In x fs -> 0 <= x <= 1) ->
+(* stacked fractions are answered row by row (polyline with at least one segment); a fraction outside [0,1] is refused;
+   without any segment (open, one vertex) a non-empty fraction list raises IndexError, as the code does *)
+Theorem C08_point_along_path_stacked : forall pl fs, pl_segments pl <> [] -> (forall x, In x fs -> 0 <= x <= 1) ->
   exists ps, point_along_path ROps pl fs = Ok ps /\ length ps = length fs /\
     forall k f p, nth_error fs k = Some f -> point_along_one ROps pl f = Some p -> nth_error ps k = Some p.
 Proof. exact point_along_stacked. Qed.
+Theorem C08_point_along_path_no_segment : forall pl f fs, pl_segments pl = [] ->
+  (forall x, In x (f :: fs) -> 0 <= x <= 1) -> point_along_path ROps pl (f :: fs) = Raise IndexError.
+Proof. exact point_along_no_segment. Qed.
 Theorem C08_point_along_path_out_of_range : forall pl fs x, In x fs -> (x < 0 \/ 1 < x) ->
   point_along_path ROps pl fs = Raise ValueError.
 Proof. exact point_along_out_of_range. Qed.
@@ -95,15 +98,15 @@ Proof. exact subdivide_keeps_originals. Qed.
 Theorem C08_subdivide_indices_increase : forall (ins : list (list (vec3 R))) k i j,
   nth_error (index_map_from 0 ins) k = Some i -> nth_error (index_map_from 0 ins) (S k) = Some j -> (i < j)%nat.
 Proof. exact subdivide_indices_increase. Qed.
-(* the result: same closedness, vertices = originals interleaved with the per-edge insertions, reported indices =
-   the index map of that interleaving; a mask of the wrong length is refused *)
-Theorem C08_subdivide_closedness : forall pl mx mask r, subdivided_by_length ROps pl mx mask = Ok r ->
-  pclosed (fst r) = pclosed pl /\
-  pv (fst r) = interleave (pv pl) (inserts_per_vertex ROps pl mx
-                 (match mask with Some m => m | None => repeat true (length (pl_segments pl)) end)) /\
-  snd r = index_map_from 0 (inserts_per_vertex ROps pl mx
-                 (match mask with Some m => m | None => repeat true (length (pl_segments pl)) end)).
-Proof. exact subdivide_closedness. Qed.
+(* clause "original vertices stay in order at the reported indices", about subdivided_by_length itself: vertex k is at
+   reported index i, and the points inserted on the edge leaving it follow directly *)
+Theorem C08_subdivide_originals_at_indices : forall pl mx mask r k v, subdivided_by_length ROps pl mx mask = Ok r ->
+  nth_error (pv pl) k = Some v ->
+  exists i il, nth_error (snd r) k = Some i /\ nth_error (pv (fst r)) i = Some v /\
+    nth_error (inserts_per_vertex ROps pl mx
+                 (match mask with Some m => m | None => repeat true (length (pl_segments pl)) end)) k = Some il /\
+    (forall j p, nth_error il j = Some p -> nth_error (pv (fst r)) (S (i + j)) = Some p).
+Proof. exact subdivide_originals_at_indices. Qed.
 Theorem C08_subdivide_mask_refused : forall pl mx m, length m <> length (pl_segments pl) ->
   subdivided_by_length ROps pl mx (Some m) = Raise ValueError.
 Proof. exact subdivide_mask_refused. Qed.
@@ -130,10 +133,9 @@ Proof. exact bisect_empty. Qed.
 Theorem C08_bisect_out_of_range : forall pl idx i, In i idx -> (length (pl_segments pl) <= i)%nat ->
   bisect ROps pl idx = Raise IndexError.
 Proof. exact bisect_out_of_range. Qed.
-(* ret_new_indices, when no segment is chosen twice (distinct end vertices): every original vertex and every inserted
-   midpoint is found at its reported new index. (A segment listed twice makes with_insertions report wrong
-   indices: that is C09's finding about repeated insertion indices, outside "index sets".) *)
-Theorem C08_bisect_new_indices : forall pl idx r, bisect ROps pl idx = Ok r -> NoDup (map (edge_end pl) idx) ->
+(* ret_new_indices, for every index list (any order, repetitions allowed; with_insertions as repaired in 9e3d823):
+   every original vertex and every inserted midpoint is found at its reported new index *)
+Theorem C08_bisect_new_indices : forall pl idx r, bisect ROps pl idx = Ok r ->
   (forall k v, nth_error (pv pl) k = Some v ->
      exists i, nth_error (snd (fst r)) k = Some i /\ nth_error (pv (fst (fst r))) i = Some v) /\
   (forall j i s, nth_error idx j = Some i -> nth_error (pl_segments pl) i = Some s ->
@@ -165,6 +167,22 @@ Theorem C08_subdivide_segments_zero_length_refuted :
   exists vs num k, nth_error (subdivide_segments ROps vs num) k = Some None.
 Proof. exact subdivide_segments_zero_length_refuted. Qed.
 
+(* definitional: pins the shape of the model; the content is carried by the traced ties / correspondence *)
+Theorem C08_segment_lengths_shape : forall pl,
+  (forall k, nth_error (segment_lengths ROps pl) k =
+             option_map (fun s => vnorm ROps (vsub ROps (snd s) (fst s))) (nth_error (pl_segments pl) k)) /\
+  total_length ROps pl = nsum ROps (segment_lengths ROps pl).
+Proof. exact lengths_shape. Qed.
+(* subdivided_by_length: same closedness, vertices = originals interleaved with the per-edge insertions, reported indices =
+   the index map of that interleaving; a mask of the wrong length is refused *)
+Theorem C08_subdivide_closedness : forall pl mx mask r, subdivided_by_length ROps pl mx mask = Ok r ->
+  pclosed (fst r) = pclosed pl /\
+  pv (fst r) = interleave (pv pl) (inserts_per_vertex ROps pl mx
+                 (match mask with Some m => m | None => repeat true (length (pl_segments pl)) end)) /\
+  snd r = index_map_from 0 (inserts_per_vertex ROps pl mx
+                 (match mask with Some m => m | None => repeat true (length (pl_segments pl)) end)).
+Proof. exact subdivide_closedness. Qed.
+
 (* non-vacuity: a closed polyline of positive total length whose last segment has zero length *)
 Example C08_positive_length_inhabited :
   0 < total_length ROps (MkPolyline [V3 0 0 0; V3 3 4 0; V3 3 4 0] true).
@@ -176,7 +194,7 @@ Proof.
   unfold seg_len. apply P_vec.vnorm_pos. cbn [fst snd]. P_vec.vunf. intros Hv. injection Hv as H1 H2 H3. lra.
 Qed.
 
-Definition C08_all := (C08_lengths_sum_centroid, C08_segments_form_a_chain, C08_point_along_path_spec,
+Definition C08_all := (C08_lengths_sum_centroid, C08_segment_lengths_shape, C08_point_along_path_no_segment, C08_subdivide_originals_at_indices, C08_segments_form_a_chain, C08_point_along_path_spec,
   C08_point_along_path_f0, C08_point_along_path_f1, C08_path_end_is_end_of_last_segment, C08_walk_past_end,
   C08_walk_lipschitz, C08_point_along_path_continuous, C08_point_along_path_stacked,
   C08_point_along_path_out_of_range, C08_subdivide_minimal_parts, C08_subdivide_untouched,
